@@ -1,5 +1,5 @@
 """C05 - threaded trajectory analysis: lock protocol shape (LOCK with predicate splitting, PATH, WHO, SIB)."""
-import os, glob
+import os, glob, re
 import sympy as sp
 from vsa import front
 from vsa.facts import Facts, unwrap, show, walk
@@ -374,9 +374,114 @@ def run(rep, tier):
                      or (x.get("k") == "mcall" and (x.get("callee") or "").endswith("::ForkWorker"))]   # delegation
             ok = ok and bool(fresh)
         rep.check(ok, "R5.6", "forkworker|" + f.qname, "ForkWorker returns a fresh worker", "%s does not return a freshly created worker" % f.qname, f.loc())
+    check_worker_effects(rep, allF)
     rep.assumptions += ["exception edges are not modelled (a throwing NextFrame leaves the mutex held; exception safety is not claimed)",
                         "SynchronizeThreads() is treated as one symbolic boolean per run (it is a pure virtual-dispatch constant getter in all applications)",
                         "deadlock freedom and schedule independence are argued from the verified token protocol, not model-checked"]
+
+
+MUTATORS = re.compile(r"::(Process|ProcessRange|Clear|clear|push_back|emplace_back|insert|erase|resize|assign|setZero|setConstant|Initialize|Add\\w*|set\\w*|operator(=|\\+=|-=|\\*=|/=|\\+\\+|--))$")
+
+
+def check_worker_effects(rep, allF):
+    """R5.7: code that runs concurrently in a worker (EvalConfiguration overrides and the worker methods they call) must not
+    store into, or call a mutator on, anything reached through the pointer to the shared application object"""
+    rep.rule("R5.7", "worker effect rule: in every Worker::EvalConfiguration override and the worker methods it calls, no assignment, "
+                     "compound assignment, ++/-- or mutator call has a destination reached through the worker's pointer to the shared "
+                     "application object (including references/pointers/loop variables derived from it)")
+    ovs = [f for f in allF.overriders(APP + "Worker::EvalConfiguration") if f.j["template"] != "pattern"]
+    rep.floor("R5.7", len(ovs), 4, "EvalConfiguration overrides")
+    for ov in ovs:
+        cls = ov.j.get("class") or ""
+        rec = allF.records.get(cls)
+        if rec is None:
+            rep.broken("R5.7", "record %s not exported" % cls)
+            continue
+        shared_fields = {fld["qname"] for fld in rec["fields"] if fld["type"].endswith("*") and "votca::" in fld["type"] or (fld["type"].endswith("*") and "class" not in fld["type"] and not fld["type"].startswith("std::"))}
+        shared_fields = {q for q in shared_fields if not q.endswith(("::top_", "::top_cg_"))}
+        # functions of the worker class reachable from the override (same class)
+        todo, funcs = [ov], []
+        while todo:
+            f = todo.pop()
+            if f in funcs:
+                continue
+            funcs.append(f)
+            for n in f.walk():
+                if n.get("k") == "mcall" and (n.get("callee") or "").startswith(cls + "::") and unwrap(n.get("obj") or {}).get("k") == "this":
+                    todo += [g for g in allF.find(n["callee"]) if g not in funcs]
+        bad = []
+        n_stores = 0
+        for f in funcs:
+            rep.analysed(f)
+            tainted = set()
+
+            def rooted(n, depth=0):
+                n = unwrap(n)
+                while n is not None and depth < 40:
+                    depth += 1
+                    k = n.get("k")
+                    if k == "member":
+                        if n.get("field") in shared_fields:
+                            return True
+                        n = unwrap(n.get("base")) if n.get("base") is not None else None
+                    elif k == "ref":
+                        return n.get("decl") in tainted
+                    elif k == "mcall":
+                        n = unwrap(n.get("obj")) if n.get("obj") is not None else None
+                    elif k == "opcall":
+                        n = unwrap(n["args"][0]) if n.get("args") else None
+                    elif k in ("unop", "cast"):
+                        n = unwrap(n["sub"])
+                    elif k == "subscript":
+                        n = unwrap(n["base"])
+                    elif k == "construct" and len(n.get("args", [])) == 1:
+                        n = unwrap(n["args"][0])
+                    else:
+                        return False
+                return False
+            changed = True
+            while changed:
+                changed = False
+                for n in f.walk():
+                    if n.get("k") == "decl":
+                        for d in n["decls"]:
+                            t = d.get("type") or ""
+                            if d.get("init") is not None and (t.endswith("&") or t.endswith("*")) and d["decl"] not in tainted and rooted(d["init"]):
+                                tainted.add(d["decl"]); changed = True
+                    elif n.get("k") == "rangefor" and n.get("var") and n["var"]["decl"] not in tainted:
+                        t = n["var"].get("type") or ""
+                        if (t.endswith("&") or t.endswith("*")) and rooted(n["range"]):
+                            tainted.add(n["var"]["decl"]); changed = True
+            for n in f.walk():
+                k = n.get("k")
+                tgt = None
+                if k == "assign":
+                    tgt = n["lhs"]
+                elif k == "unop" and n.get("op") in ("++", "--"):
+                    tgt = n["sub"]
+                elif k == "opcall" and n.get("op") in ("=", "+=", "-=", "*=", "/=", "++", "--"):
+                    tgt = n["args"][0]
+                elif k == "mcall" and MUTATORS.search(n.get("callee") or "") and n.get("obj") is not None:
+                    tgt = n["obj"]
+                if tgt is None:
+                    continue
+                n_stores += 1
+                t = unwrap(tgt)
+                # rebinding a local pointer/reference variable itself is not a store into the shared object
+                if t.get("k") == "ref":
+                    dt = (f.decls.get(t.get("decl")) or {}).get("type", "")
+                    if k in ("assign",) and (dt.endswith("*")):
+                        continue
+                if rooted(tgt):
+                    bad.append("%s at %s" % (show(n)[:70], f.loc(n)))
+        cname = cls.split("votca::csg::")[-1]
+        if not bad:
+            rep.holds("R5.7", "worker-effects|" + cname, "%d stores/mutator calls inspected, none reaches the shared application object" % n_stores, ov.loc(), sample=True)
+        for b_ in sorted(set(x.split(" at ")[0] for x in bad)):
+            where = [x.split(" at ")[1] for x in bad if x.startswith(b_ + " at ")][0]
+            rep.violation("R5.7", "worker-effects|%s|%s" % (cname, b_),
+                          "%s (runs concurrently in every worker) executes `%s`, which writes to state shared through the application pointer: "
+                          "a data race between workers (lost updates; results depend on the schedule and thread count)" % (ov.qname, b_), where)
 
 
 def fields_in(n):
